@@ -36,6 +36,9 @@ GROUPS = [
 # properties whose statement has an executable oracle on small graphs: the same harness compares results with the definition
 ORACLE_GROUPS = {
     'C10': [('src/algorithms/components/', 'components_oracle'), ('src/graph/query.rs', 'components_oracle')],
+    'C01': [('src/graph/', 'queries_oracle')],
+    'C02': [('src/graph/', 'queries_oracle')],
+    'C03': [('src/graph/', 'sp_oracle')],
     'C09': [('src/graph/', 'counts_oracle')],
     'C12': [('src/algorithms/community/partitions.rs', 'partition_oracle')],
     'C04': [('src/algorithms/shortest_path/', 'sp_oracle')],
